@@ -156,7 +156,9 @@ import (
 // an error.
 func Marshal(v any) ([]byte, error) {
 	e := newEncodeState()
+	verifAcquireEnc(e)
 	defer encodeStatePool.Put(e)
+	defer verifReleaseEnc(e)
 
 	err := e.marshal(v, encOpts{escapeHTML: true})
 	if err != nil {
@@ -169,7 +171,9 @@ func Marshal(v any) ([]byte, error) {
 
 func MarshalEscaped(v any, escape bool) ([]byte, error) {
 	e := newEncodeState()
+	verifAcquireEnc(e)
 	defer encodeStatePool.Put(e)
+	defer verifReleaseEnc(e)
 
 	err := e.marshal(v, encOpts{escapeHTML: escape})
 	if err != nil {
@@ -418,10 +422,12 @@ func typeEncoder(t reflect.Type) encoderFunc {
 	if loaded {
 		return fi.(encoderFunc)
 	}
+	verifYield(verifSiteTypeEncoder)
 
 	// Compute the real encoder and replace the indirect func with it.
 	f = newTypeEncoder(t, true)
 	wg.Done()
+	verifYield(verifSiteTypeEncoder)
 	encoderCache.Store(t, f)
 	return f
 }
@@ -705,10 +711,12 @@ func stringEncoder(e *encodeState, v reflect.Value, opts encOpts) {
 	}
 	if opts.quoted {
 		e2 := newEncodeState()
+		verifAcquireEnc(e2)
 		// Since we encode the string twice, we only need to escape HTML
 		// the first time.
 		e2.string(v.String(), opts.escapeHTML)
 		e.stringBytes(e2.Bytes(), false)
+		verifReleaseEnc(e2)
 		encodeStatePool.Put(e2)
 	} else {
 		e.string(v.String(), opts.escapeHTML)
@@ -1481,6 +1489,7 @@ func cachedTypeFields(t reflect.Type) structFields {
 	if f, ok := fieldCache.Load(t); ok {
 		return f.(structFields)
 	}
+	verifYield(verifSiteTypeFields)
 	f, _ := fieldCache.LoadOrStore(t, typeFields(t))
 	return f.(structFields)
 }
